@@ -7,6 +7,7 @@ from loguru import logger
 from mdpax.core.problem import Problem, ProblemConfig
 from mdpax.core.solver import SolverConfig, SolverInfo, SolverState
 from mdpax.solvers.value_iteration import ValueIteration
+from mdpax.utils import _verif
 from mdpax.utils.logging import get_convergence_format
 from mdpax.utils.types import ValueFunction
 
@@ -170,10 +171,14 @@ class RelativeValueIteration(ValueIteration):
             SolverState containing final values [n_states], optimal policy [n_states, action_dim],
             and SolverInfo including iteration count and gain
         """
+        if _verif.ENABLED:
+            _verif.emit("solve_begin", solver=self, max_iterations=max_iterations)
         for _ in range(max_iterations):
             self.iteration += 1
             new_values, conv = self._iteration_step()
             self.values = new_values
+            if _verif.ENABLED:
+                _verif.emit("sweep", solver=self, conv=conv)
 
             logger.info(
                 f"Iteration {self.iteration}: span: {conv:{self.convergence_format}}, gain: {self.gain:.4f}"
@@ -183,6 +188,8 @@ class RelativeValueIteration(ValueIteration):
                 logger.info(
                     f"Convergence threshold reached at iteration {self.iteration}"
                 )
+                if _verif.ENABLED:
+                    _verif.emit("converged", solver=self)
                 break
 
             if (
@@ -204,6 +211,8 @@ class RelativeValueIteration(ValueIteration):
         logger.info("Policy extracted")
 
         logger.success("Relative value iteration completed")
+        if _verif.ENABLED:
+            _verif.emit("solve_end", solver=self)
         return self.solver_state
 
     @property
